@@ -292,7 +292,8 @@ def listener_filter(chk, rule: str):
         chk.check([src(a) for a in c.args] == ["msg.arbitration_id", "msg.data", "msg.timestamp"], rule, f"{NET}:MessageListener.on_message_received | id, data and timestamp handed on as received",
                   ml.loc(c), f"{src(c)}: subscribers such as PdoMap.on_message keep the data object and write into it; it must be the frame's own bytearray")
     wit = must_pass(fm.cfg, lambda n: node_calls(n, ".notify"),
-                    skip_edge=lambda n, lab: n.kind == "test" and ("is_error_frame" in src(n.ast) or "is_remote_frame" in src(n.ast)) and lab == "T")
+                    skip_edge=lambda n, lab: n.kind == "test" and ("is_error_frame" in src(n.ast) or "is_remote_frame" in src(n.ast))
+                    and lab == ("F" if isinstance(n.ast, ast.UnaryOp) and isinstance(n.ast.op, ast.Not) else "T"))
     chk.check(wit is None, rule, f"{NET}:MessageListener.on_message_received | data frames are dispatched on every path", ml.loc(), f"{path_text(wit) if wit else ''}")
 
 
